@@ -248,9 +248,13 @@ Definition pareto_kind (t : target) : bool :=
 Definition capacity (t : target) : nat :=
   match t with THof k => k | TPareto _ c => c | TKeeper m k _ _ => if m then k * 5 else k end.
 
+(* clause groups, for diagnosis: which = 0 checks everything, 1 only the archive contents,
+   2 only "best never worse", 3 only the keeper's counters and flags *)
+Definition sel (which n : nat) (b : bool) : bool := if (which =? 0) || (which =? n) then b else true.
+
 (* walk over the updates: seen = everything shown so far (this update included),
    prev = previous observation, stag = consecutive non-improving updates so far, n = update number *)
-Fixpoint clauses_from (t : target) (seen : list indiv) (prev : list (list Q)) (stag n : nat)
+Fixpoint clauses_from (which : nat) (t : target) (seen : list indiv) (prev : list (list Q)) (stag n : nat)
          (pops : list (list indiv)) (obs : list ostep) : bool :=
   match pops, obs with
   | [], [] => true
@@ -258,10 +262,10 @@ Fixpoint clauses_from (t : target) (seen : list indiv) (prev : list (list Q)) (s
       let seen' := seen ++ p in
       let cur := rev (o_keys o) in                       (* best first, like items *)
       let stag' := if o_any o then 0 else S stag in
-      negb (o_raised o) &&
-      (if pareto_kind t then pareto_clauses (capacity t) seen' o else hof_clauses (capacity t) seen' o) &&
-      head_not_worse prev cur &&
-      (if is_keeper t then
+      sel which 1 (negb (o_raised o) &&
+        (if pareto_kind t then pareto_clauses (capacity t) seen' o else hof_clauses (capacity t) seen' o)) &&
+      sel which 2 (head_not_worse prev cur) &&
+      sel which 3 (if is_keeper t then
          (o_gen o =? S n) && (o_stag o =? stag') &&
          Bool.eqb (o_any o) (any_metric_improved_b (target_metrics t) prev cur) &&
          match t with
@@ -269,7 +273,7 @@ Fixpoint clauses_from (t : target) (seen : list indiv) (prev : list (list Q)) (s
          | _ => true
          end
        else true) &&
-      clauses_from t seen' cur stag' (S n) pops' obs'
+      clauses_from which t seen' cur stag' (S n) pops' obs'
   | _, _ => false
   end.
 
@@ -285,7 +289,7 @@ Definition in_scope (t : target) (pops : list (list indiv)) : bool :=
   (if is_keeper t then forallb (fun x => length (vals (fitness x)) =? target_metrics t) seen else true).
 
 Definition holds_b (t : target) (pops : list (list indiv)) (obs : list ostep) : bool :=
-  implb (in_scope t pops) (clauses_from t [] [] 0 0 pops obs).
+  implb (in_scope t pops) (clauses_from 0 t [] [] 0 0 pops obs).
 
 (* ---------------- case format of the harness ---------------- *)
 (* a case names its individuals once (pool) and gives the populations as index lists *)
@@ -297,4 +301,12 @@ Definition resolve (pool : list indiv) (ipops : list (list nat)) : list (list in
 Definition check_case (c : target * list indiv * list (list nat) * list ostep) : list bool :=
   match c with
   | (t, pool, ipops, obs) => let pops := resolve pool ipops in [agree t pops obs; holds_b t pops obs]
+  end.
+
+(* which group of clauses fails: [contents; best never worse; counters] *)
+Definition diagnose_case (c : target * list indiv * list (list nat) * list ostep) : list bool :=
+  match c with
+  | (t, pool, ipops, obs) =>
+      let pops := resolve pool ipops in
+      map (fun w => implb (in_scope t pops) (clauses_from w t [] [] 0 0 pops obs)) [1; 2; 3]
   end.
